@@ -11,6 +11,7 @@ package el
 //@ bind (e *elHelper) Helper.OK = ElOK(e)
 
 //@ method (Helper).MatchString
+//@ terminates
 //@ property C16 C18
 //@ requires [usable] self.OK
 //@ assigns nothing
@@ -20,6 +21,7 @@ package el
 // placeholder stage produced, not on the raw tag).
 //@ ghost var ElLastInput string
 //@ method (Helper).ReplaceAllContent
+//@ terminates
 //@ property C16 C18
 //@ requires [usable] self.OK && f != nil
 //@ assigns allmaps(map[string]any), ElLastInput
@@ -34,6 +36,7 @@ package el
 //@ spec func ElContent(e *elHelper, elr string) string = substr(elr, e.pre, len(elr) - e.suf)
 
 //@ func (*elHelper).content
+//@ terminates
 //@ property C16 C18
 //@ requires [fits] e != nil && 0 <= e.pre && 0 <= e.suf && e.pre + e.suf <= len(elr)
 //@ assigns nothing
@@ -41,6 +44,7 @@ package el
 
 // The replacement callback (A-CALLBACK): it may record what it looked up; it reports failure through its error result.
 //@ func (*elHelper).ReplaceAllContent#f
+//@ terminates
 //@ assigns allmaps(map[string]any)
 
 // ReplaceAllContent: repeat "find the first placeholder, replace it by f(its content)" until none is left.
@@ -61,18 +65,21 @@ package el
 //@ loop 1 invariant [untouched] implies(RFirst(e.Regexp, s) == "", result == s)
 
 //@ func newEl
+//@ terminates
 //@ property C09 C16 C18
 //@ assigns nothing
 //@ ensures [built] result != nil && typeIs(result, *elHelper) && fresh(payload(result)) && asType(result, *elHelper).Regexp == reg && asType(result, *elHelper).pre == pre && asType(result, *elHelper).suf == suf
 //@ ensures [usable-if-it-fits] implies(reg != nil && 0 <= pre && 0 <= suf && pre + suf <= RMatchMin(reg) && RMatchMin(reg) >= 1, result.OK)
 
 //@ func NewQuote
+//@ terminates
 //@ property C09 C16
 //@ assigns nothing
 //@ ensures [built] result != nil && typeIs(result, *elHelper) && asType(result, *elHelper).Regexp != nil && asType(result, *elHelper).pre == 2 && asType(result, *elHelper).suf == 1
 //@ ensures [usable] result.OK
 
 //@ func NewExpr
+//@ terminates
 //@ property C09 C18
 //@ assigns nothing
 //@ ensures [built] result != nil && typeIs(result, *elHelper) && asType(result, *elHelper).Regexp != nil && asType(result, *elHelper).pre == 2 && asType(result, *elHelper).suf == 1
